@@ -1953,12 +1953,12 @@ impl TypeChecker {
             forall|i: int| 0 <= i < old(self).types.len() ==> (#[trigger] final(self).types@[i]).ty == old(self).types@[i].ty, //# C02 union.types_untouched
             exists|w: int| #[trigger] merged_into(old(self).types@, final(self).types@, rep0(old(self).types@, a.0 as int), rep0(old(self).types@, b.0 as int), w), //# C02,C03 union.partition_merges_exactly_two_classes
             forall|c: Constraint| #[trigger] cons_of(final(self).types@, a.0 as int).contains(c) <==>
-                cons_of(old(self).types@, a.0 as int).contains(c) || cons_of(old(self).types@, b.0 as int).contains(c), //# C02,C03 union.merged_class_keeps_all_constraints
+                cons_of(old(self).types@, a.0 as int).contains(c) || cons_of(old(self).types@, b.0 as int).contains(c), //# C02,C03,C05 union.merged_class_keeps_all_constraints
             forall|i: int| 0 <= i < old(self).types.len() && rep0(old(self).types@, i) != rep0(old(self).types@, a.0 as int)
                 && rep0(old(self).types@, i) != rep0(old(self).types@, b.0 as int)
-                ==> #[trigger] cons_of(final(self).types@, i) == cons_of(old(self).types@, i), //# C02,C03 union.other_classes_keep_constraints
+                ==> #[trigger] cons_of(final(self).types@, i) == cons_of(old(self).types@, i), //# C02,C03,C05 union.other_classes_keep_constraints
             merges_from(old(self).types@, final(self).types@), //# C02 union.classes_only_merge
-            cons_from(old(self).types@, final(self).types@), //# C02,C03 union.no_constraint_dropped
+            cons_from(old(self).types@, final(self).types@), //# C02,C03,C05 union.no_constraint_dropped
             heads_from(old(self).types@, final(self).types@), //# C02,C03 union.known_types_keep_their_shape
             rep0(final(self).types@, a.0 as int) == rep0(final(self).types@, b.0 as int), //# C02,C03 union.the_two_ids_end_up_in_one_class
             final(self).variables == old(self).variables, //# C07 union.spec.aux2
@@ -1992,7 +1992,7 @@ impl TypeChecker {
                 forall|i: int| 0 <= i < ts3.len() ==> (#[trigger] self.types@[i]).parent == ts3[i].parent && self.types@[i].ty == ts3[i].ty && self.types@[i].size == ts3[i].size, //# C02,C07 union.loop1.aux4
                 forall|i: int| 0 <= i < ts3.len() && i != a as int ==> (#[trigger] self.types@[i]).constraints == ts3[i].constraints, //# C02,C07 union.loop1.aux5
                 forall|c: Constraint| #[trigger] self.types@[a as int].constraints@.dom().contains(c) <==> ts3[a as int].constraints@.dom().contains(c)
-                    || exists|j: int| 0 <= j < it.index@ && *(#[trigger] it.seq()[j]).0 == c, //# C02,C03 union.loop.constraints_accumulate
+                    || exists|j: int| 0 <= j < it.index@ && *(#[trigger] it.seq()[j]).0 == c, //# C02,C03,C05 union.loop.constraints_accumulate
                 self.variables == old(self).variables, //# C07 union.loop1.aux6
 //@   endloop
 //@   ghost after-loop 1
